@@ -264,6 +264,31 @@ def gen_crash_burst(rng):
     return lines
 
 
+def gen_two_down(rng):
+    """C08: two nodes are down at the same time.  A live node sends to a node that is already down and then crashes itself while
+    that message is in flight; the first node comes back (with its process) before the arrival time: nothing the crashed sender
+    had in flight is ever delivered, to anybody"""
+    seed = rng.randrange(DEFAULT["seeds"])
+    lines = [f"seed {seed}", f"draws {draws_for(seed)}", "node n0", "node n1", "node n2", "proc p0 n0", "proc p1 n1 rec", "proc p2 n2 rec"]
+    for p, others in (("p0", ("p1", "p2")), ("p1", ("p0", "p2")), ("p2", ("p0", "p1"))):
+        lines.append(f"rule {p} 0 L:m0 0 S:m1:=x{p[1]}:{others[0]} S:m1:=y{p[1]}:{others[1]}")
+        lines.append(f"rule {p} 0 M:m1 0 L:m3:$")
+    lines.append(rng.choice(["net delay 4", "net delays 3 5", "net delay 6"]))
+    b, a = rng.sample(["n0", "n1", "n2"], 2)
+    pa, pb = "p" + a[1], "p" + b[1]
+    lines.append(f"crash {b}")
+    lines.append(f"local {pa} m0 =go")
+    if rng.random() < 0.3:
+        c = ({"n0", "n1", "n2"} - {a, b}).pop()
+        lines.append(f"local p{c[1]} m0 =go")
+    lines.append(f"crash {a}")
+    lines += [f"recover {b}", f"proc {pb} {b} rec"]
+    if rng.random() < 0.4:
+        lines += [f"recover {a}", f"proc {pa} {a}"]
+    lines += ["steps 8", "until_none", "obs"]
+    return lines
+
+
 def gen_skew_recover(rng):
     """C06: nodes with clock skews whose processes report `ctx.time()` from every kind of handler, before a crash and after
     recovery + re-adding the process"""
